@@ -561,7 +561,7 @@ class _Gen:
     """value tree + reference wire bytes for one schema, one shape"""
 
     def __init__(self, src, shape, symbolic):
-        self.src, self.shape, self.left, self.n = src, shape, (_K4_SYM if symbolic else 0), 0
+        self.src, self.shape, self.left, self.n = src, shape, int(symbolic), 0
 
     def integer(self, typ):
         bits, signed = _INT_RANGE[typ]
@@ -660,7 +660,7 @@ def _same(src, got, want):
 from symx.core import SymBool as core_SymBool  # noqa: E402
 
 
-def k4_messages(src, group):
+def k4_messages(src, group, nsym=_K4_SYM):
     classes = [c for c in STRUCTS if c.__module__.rsplit(".", 1)[1] == group]
     cls = classes[src.choice("class", len(classes))]
     shape = src.choice("shape", 3)
@@ -668,7 +668,7 @@ def k4_messages(src, group):
     real_f64 = T.Float64._unpack
     with _Env(), patched(T.Float64, _unpack=lambda b: real_f64(b.to_bytes() if isinstance(b, SymBuf) else b)):
         # decode direction, symbolic leaves
-        g = _Gen(src, shape, True)
+        g = _Gen(src, shape, nsym)
         try:
             want, wire = g.value(cls.SCHEMA)
         except NotImplementedError as e:
@@ -687,7 +687,7 @@ def k4_messages(src, group):
                   shape=shape)
         src.check(rd.pos == len(wire), f"{name}: decode consumed {rd.pos} bytes of a {len(wire)}-byte message", shape=shape)
     # encode direction on the boundary instantiation (concrete)
-    g = _Gen(src, shape, False)
+    g = _Gen(src, shape, 0)
     want, wire = g.value(cls.SCHEMA)
     try:
         enc = cls(*want).encode()
@@ -702,9 +702,10 @@ def k4_messages(src, group):
 
 def harnesses(tier):
     hs = []
+    _K4_SYM = 6 if tier == "quick" else 24
     for group in _K4_GROUPS:
         n = len([c for c in STRUCTS if c.__module__.rsplit(".", 1)[1] == group])
-        hs.append(Harness(name=f"K4_messages_{group}", fn=k4_messages, params={"group": group},
+        hs.append(Harness(name=f"K4_messages_{group}", fn=k4_messages, params={"group": group, "nsym": _K4_SYM},
                           functions=[T.Schema.encode, T.Schema.decode, T.Array.encode, T.Array.decode, T.CompactArray.encode,
                                      T.CompactArray.decode, T.String.decode, T.CompactString.decode, T.Bytes.decode,
                                      T.CompactBytes.decode, T.TaggedFields.decode],
